@@ -3,6 +3,7 @@ package multicast
 import (
 	"crypto/sha256"
 	"math/rand"
+	"sync"
 	"time"
 
 	"github.com/ethereum/go-ethereum/common"
@@ -62,4 +63,15 @@ func RandomPeersLimit(peers []boson.Address, limit int) []boson.Address {
 func ConvertHashToGID(h common.Hash) boson.Address {
 	s := h.Hex()[2:]
 	return boson.MustParseHexAddress(s)
+}
+
+var cacheMu sync.Mutex
+
+// setIfNotExist is an atomic test-and-set on the package cache. gcache's own
+// SetIfNotExist checks and sets in two steps and reports true to every caller
+// that passed the check, so concurrent copies of one message were all accepted.
+func setIfNotExist(key string, d time.Duration) (bool, error) {
+	cacheMu.Lock()
+	defer cacheMu.Unlock()
+	return cache.SetIfNotExist(cacheCtx, key, 1, d)
 }
